@@ -25,3 +25,27 @@ Proof.
        rewrite H; reflexivity.
 Qed.
 Print Assumptions close_args_gen.
+
+(* read(): the routing of a received frame to the callbacks is the regenerated opcode chain (on_cont_message is not
+   part of the app model: its branch is the one taken with the callback absent) *)
+Theorem deliver_gen : forall cfg op f s,
+  deliver cfg op f s =
+  if app_is_close op then
+    let '(fl, s1) := teardown cfg (Some f) s in (fl, s1, true)
+  else if app_is_ping op then
+    let '(fl, s1) := callback cfg (on_ping cfg) (TPing (a_data f)) s in (fl, s1, false)
+  else if app_is_pong op then
+    let '(fl, s1) := callback cfg (on_pong cfg) (TPong (a_data f)) s in (fl, s1, false)
+  else if app_is_cont op false then (Normal, s, false)
+  else
+    let is_text := app_decodes_text op (app_skip_utf8 cfg) in
+    match callback cfg (on_data cfg) (TData (a_data f) op true is_text) s with
+    | (Kbd, s1) => (Kbd, s1, false)
+    | (Normal, s1) =>
+      let '(fl, s2) := callback cfg (on_message cfg) (TMessage (a_data f) is_text) s1 in (fl, s2, false)
+    end.
+Proof.
+  intros cfg op f s. unfold deliver, app_is_close, app_is_ping, app_is_pong, app_is_cont, app_decodes_text.
+  rewrite andb_false_r. reflexivity.
+Qed.
+Print Assumptions deliver_gen.
